@@ -59,7 +59,7 @@ def rename_contracts(prop, repo, C):
             if isinstance(x, (list, tuple)): return type(x)(rw(v) for v in x)
             return x
         out[key] = rw(copy.deepcopy(C[key]))
-        for dk in ('locals', 'late_locals'):          # dictionaries keyed by local names
+        for dk in ('locals', 'late_locals', 'params'):          # dictionaries keyed by local / parameter names
             if dk in out[key]: out[key][dk] = {ren.get(k, k): v for k, v in out[key][dk].items()}
         notes.append('%s: %s' % (key, ', '.join('%s->%s' % kv for kv in ren.items())))
     return out, notes
